@@ -77,6 +77,14 @@ Proof.
   - destruct HT as [<-|[]]. apply sc_set_in.
 Qed.
 
+Lemma set_frag_mono sc ip c added : forall s x, In x s -> In x (set_frag sc ip c s added).
+Proof.
+  unfold set_frag. induction added as [|f r IH]; intros s x H; cbn [fold_left]; [exact H|]. apply IH.
+  destruct (kind_of sc c); [apply (sc_sets_mono (fun pt => (ip, pt, f))), H
+                           |apply (sc_sets_mono (fun pt => (ip, pt, f))), H
+                           |apply sc_set_mono, H].
+Qed.
+
 (* ---- one level of the sanitizer ---- *)
 Definition level (tm : tmap) (sc : sschema) (ip : list string) (ss : list ssel) (acc : list ssel * scrub) : list ssel * scrub :=
   fold_left (fun acc x => san_sel tm sc ip x acc) ss acc.
@@ -105,7 +113,7 @@ Lemma san_sel_frag tm sc ip c o sub result scr :
   let '(child, sf) := sanitize tm sc sub ip in
   let scr1 := sc_merge scr sf in
   let '(child', added) := add_scrub_fields tm sc child c in
-  let scr2 := fold_left (fun acc' f => sc_set acc' (ip, c, f)) added scr1 in
+  let scr2 := set_frag sc ip c scr1 added in
   match kind_of sc o with
   | KIface => (add_to_result result (sanitize_iface sc child' c o), scr2)
   | KUnion => (add_to_result result (sanitize_union child' c o), scr2)
@@ -127,8 +135,8 @@ Proof.
     apply set_missing_mono, sc_merge_left, H.
   - rewrite san_sel_frag. destruct (sanitize tm sc sub ip) as [child sf].
     destruct (add_scrub_fields tm sc child c) as [child' added].
-    assert (In x (fold_left (fun acc' f => sc_set acc' (ip, c, f)) added (sc_merge scr sf))).
-    { apply (sc_sets_mono (fun f => (ip, c, f))), sc_merge_left, H. }
+    assert (In x (set_frag sc ip c (sc_merge scr sf) added)).
+    { apply set_frag_mono, sc_merge_left, H. }
     destruct (kind_of sc o); cbn [snd]; assumption.
 Qed.
 Lemma level_mono tm sc ip ss : forall acc x, In x (snd acc) -> In x (snd (level tm sc ip ss acc)).
@@ -185,8 +193,8 @@ Proof.
     apply level_mono. match goal with |- context [san_sel _ _ _ _ ?acc] => destruct acc as [result scr] end.
     rewrite san_sel_frag. destruct (sanitize tm sc sub0 ip) as [child sf]. cbn [snd] in IH.
     destruct (add_scrub_fields tm sc child c) as [child' added].
-    assert (In (ip' ++ [a], T, f) (fold_left (fun acc' f0 => sc_set acc' (ip, c, f0)) added (sc_merge scr sf))).
-    { apply (sc_sets_mono (fun f0 => (ip, c, f0))), sc_merge_right, IH. }
+    assert (In (ip' ++ [a], T, f) (set_frag sc ip c (sc_merge scr sf) added)).
+    { apply set_frag_mono, sc_merge_right, IH. }
     destruct (kind_of sc o); cbn [snd]; assumption.
 Qed.
 
